@@ -315,9 +315,9 @@ impl Col for Zno {
 // Plain-data shapes of different sizes and alignments.
 // ---------------------------------------------------------------------------------------------
 
-/// 16-aligned, (u8, u64) with padding.
+/// Over-aligned (64 > the 16 that malloc guarantees), (u8, u64) with padding. (u128 in `Byf` covers alignment 16.)
 #[derive(Clone)]
-#[repr(align(16))]
+#[repr(align(64))]
 pub struct Pad(pub u8, pub u64);
 
 impl Col for Pad {
